@@ -303,6 +303,111 @@ def _class_of_annotation(prog: Program, ref: FuncRef, pname: str) -> str | None:
     return None
 
 
+ENV_STREAM = "np_random"      # gymnasium's per-environment generator; Env.reset(seed=None) keeps it
+
+
+def _env_stream_terms(gymp: Term) -> tuple[Term, ...]:
+    return (("attr", gymp, ENV_STREAM), ("call", ("attr", gymp, "get_wrapper_attr"), (("const", ENV_STREAM),), ()))
+
+
+def _rederived_per_task(prog: Program, cq: str, attr: str, hook: str | None, factory: tuple[str, str] | None) -> tuple[str, str]:
+    """Is ``self.<attr>`` of class ``cq`` replaced, in every task and before it is drawn from, by state of that task's own env?
+
+    Returns ("yes" | "no" | "unknown", reason).  The conditions (all structural):
+      H1  the caller wires ``after_reset`` to a method ``hook`` of the same object as ``get_next_step``;
+      H2  the worker calls ``after_reset(env)`` unconditionally, after ``env.reset()`` (called without a seed, so the env keeps its
+          stream) and before the first ``get_next_step(env)``;
+      H3  ``hook`` stores ``self.<attr>`` unconditionally, as its only store to it, with a value derived from the env's own stream
+          (``gym.np_random`` / ``gym.get_wrapper_attr("np_random")``) and from nothing owned by the shared object;
+      H4  the env factory stores a per-env child stream (``spawn``) into ``np_random`` of exactly the object it returns, unconditionally.
+    """
+    if hook is None:
+        return "no", "no after_reset hook of the same object is wired"
+    methods = prog.methods(cq)
+    if hook not in methods:
+        return "no", f"{cq.rsplit('.', 1)[-1]} has no method {hook}"
+    # ---- H2: the worker
+    wref = prog.func("evaluation.eval_one")
+    wft = fterms(prog, wref)
+    wparams = wref.positional_params()
+    hookp = ("param", "after_reset") if "after_reset" in [a.arg for a in wref.node.args.args + wref.node.args.kwonlyargs] else None
+    getp = ("param", wparams[0])
+    if hookp is None:
+        return "no", "eval_one has no after_reset parameter"
+    hcalls = [e for e in wft.calls() if e.func == hookp]
+    gcalls = [e for e in wft.calls() if e.func == getp]
+    if len(hcalls) != 1 or not gcalls:
+        return "no", "eval_one does not call after_reset exactly once / never calls get_next_step"
+    h = hcalls[0]
+    if any(f[0] in ("if", "for", "while", "try", "comp") for f in h.ctx):
+        return "no", "eval_one calls after_reset only conditionally"
+    if not all(h.seq < g.seq for g in gcalls) or len(h.args) != 1:
+        return "no", "eval_one calls get_next_step before after_reset(env)"
+    envp = h.args[0]
+    if any(g.args[:1] != (envp,) for g in gcalls):
+        return "no", "get_next_step and after_reset are given different environments"
+    resets = [e for e in wft.calls("reset") if e.recv == envp]
+    if any(e.args or e.kwargs for e in resets):
+        return "no", "eval_one passes a seed/options to env.reset(): a constant seed restarts every env's stream identically"
+    # ---- H3: the hook
+    href = methods[hook]
+    hft = fterms(prog, href)
+    hp = href.positional_params()
+    if len(hp) < 2:
+        return "no", f"{hook} takes no environment"
+    gymp = ("param", hp[1])
+    SELFP = ("param", "self")
+    stores = [e for e in hft.of_kind("store") if e.obj == SELFP and e.attr == attr]
+    if not stores:
+        return "no", f"{hook}() does not replace self.{attr}"
+    if len(stores) != 1 or any(f[0] in ("if", "for", "while", "try", "comp", "with") for f in stores[0].ctx):
+        return "no", f"{hook}() replaces self.{attr} only on some paths"
+    if any(r.seq < stores[0].seq for r in hft.of_kind("return", "raise")):
+        return "no", f"{hook}() can return before it replaces self.{attr}"
+    val = stores[0].value
+    streams = _env_stream_terms(gymp)
+    subs = list(subterms(val))
+    from_stream = val in streams or any(
+        t[0] == "call" and t[1][0] == "attr" and t[1][1] in streams and t[1][2] in ("integers", "bytes", "random", "spawn", "bit_generator") for t in subs)
+    owned = [t for t in subs if t[0] == "attr" and t[1] == SELFP]
+    if owned:
+        return "no", f"{hook}() derives the new self.{attr} from the shared object's own state (self.{owned[0][2]})"
+    if not from_stream:
+        if any(t == gymp for t in subs):
+            return "unknown", f"{hook}() derives self.{attr} from the environment, but not from its {ENV_STREAM} stream: {short(val, 90)}"
+        return "no", f"{hook}() re-creates self.{attr} from nothing that differs between tasks: {short(val, 90)}"
+    if not (val in streams or _is_rng_ctor(val)):
+        return "unknown", f"{hook}() stores a value of unrecognised kind into self.{attr}: {short(val, 90)}"
+    # ---- H4: the factory seeds that stream per env
+    if factory is None:
+        return "no", "the env factory is not a method whose body is known"
+    fq, fmeth = factory
+    fmethods = prog.methods(fq)
+    if fmeth not in fmethods:
+        return "no", f"env factory {fmeth} not found"
+    fref = fmethods[fmeth]
+    fft = fterms(prog, fref)
+    rets = [r for r in fft.of_kind("return")]
+    sets = [e for e in fft.of_kind("store") if e.attr == ENV_STREAM]
+    if not sets:
+        return "no", f"{fmeth}() never seeds {ENV_STREAM} of the env: gymnasium then seeds it from OS entropy and the result is not a function of the seed"
+    if len(sets) != 1 or any(f[0] in ("if", "for", "while", "try", "comp", "with") for f in sets[0].ctx):
+        return "no", f"{fmeth}() seeds {ENV_STREAM} only on some paths"
+    st = sets[0]
+    if not rets or any(r.value != st.obj or r.seq < st.seq for r in rets):
+        return "no", f"{fmeth}() seeds {ENV_STREAM} of an object other than the env it returns (a wrapper env has its own stream)"
+    own = {a for (c, a) in rng_attributes(prog) if c == fq}
+    v = st.value
+    child = v[0] == "index" and v[1][0] == "call" and v[1][1][0] == "attr" and v[1][1][2] == "spawn" and v[1][1][1][0] == "attr" and \
+        v[1][1][1][1] == SELFP and v[1][1][1][2] in own
+    seeded = is_call_to(v, *RNG_CTORS) and any(t[0] == "call" and t[1][0] == "attr" and t[1][1][0] == "attr" and t[1][1][1] == SELFP and t[1][1][2] in own
+                                               and t[1][2] in ("integers", "bytes", "random") for t in subterms(v))
+    if not (child or seeded):
+        return "no", f"{fmeth}() does not give the env a child stream of its own: {ENV_STREAM} = {short(v, 90)}"
+    return "yes", (f"eval_one calls after_reset(env) before the first get_next_step(env); {hook}() replaces self.{attr} from env.{ENV_STREAM}; "
+                   f"{fmeth}() seeds that stream per env with a spawn child; env.reset() is called without a seed")
+
+
 def rule_c12_rng(prog: Program, col: Collector) -> None:
     col.rule("Q3", "no RNG state shared between pool tasks, and no process-global RNG, is drawn from in code reachable from the evaluate() worker", 3)
     NEC_SHARED = ("each pool chunk pickles its own copy of shared random state, so chunks replay each other and the sequential path "
@@ -367,13 +472,30 @@ def rule_c12_rng(prog: Program, col: Collector) -> None:
                         continue
                     reach = _self_closure(prog, cq, meth)
                     draws = _draws_on_self_attr(prog, cq, attr)
-                    for mname in sorted(reach & set(draws)):
+                    hit = sorted(reach & set(draws))
+                    if not hit:
+                        continue
+                    # the state may be replaced per task by the after_reset hook of the same object
+                    other = bound.get("after_reset")
+                    hook = other[2] if pname == "get_next_step" and other is not None and other[0] == "attr" and other[1] == obj else None
+                    if hook is not None and obj[0] == "call" and sum(1 for c in ft.calls() if c.term == obj) != 1:
+                        hook = None          # two constructions of equal shape are two objects: terms carry no identity, call events do
+                    fac = bound.get("env_generator")
+                    fcls = solver_classes_of(fac[1], ref) if fac is not None and fac[0] == "attr" else []
+                    status, why = _rederived_per_task(prog, cq, attr, hook, (fcls[0], fac[2]) if len(fcls) == 1 else None)
+                    for mname in hit:
                         for dev, what in draws[mname]:
                             nsites += 1
                             mref = prog.methods(cq)[mname]
-                            col.violation(mref.where(dev.node), mref.short, f"shared-rng:{cq.rsplit('.', 1)[-1]}.{attr}",
-                                          f"{what}: RNG state owned by the one {cq.rsplit('.', 1)[-1]} object that {ref.short} hands to every pool task via {pname}",
-                                          NEC_SHARED, rule="Q3")
+                            if status == "yes":
+                                col.ok(mref.where(dev.node), mref.short, f"{what}: per-task state - {why}", rule="Q3")
+                            elif status == "unknown":
+                                col.undecidable(mref.where(dev.node), mref.short, f"{what}: {why}", rule="Q3")
+                            else:
+                                col.violation(mref.where(dev.node), mref.short, f"shared-rng:{cq.rsplit('.', 1)[-1]}.{attr}",
+                                              f"{what}: RNG state owned by the one {cq.rsplit('.', 1)[-1]} object that {ref.short} hands to every pool task via {pname} "
+                                              f"(not replaced per task: {why})",
+                                              NEC_SHARED, rule="Q3")
                 if not any(c2 == cq for (c2, _a) in rng_attrs):
                     nsites += 1
                     col.ok(ref.where(e.node), ref.short, f"{pname} <- bound method of {cq.rsplit('.', 1)[-1]}: the class holds no RNG state", rule="Q3")
